@@ -559,6 +559,10 @@ func Check(c CheckConfig) int {
 	if len(a.viol)-knownMatched > 0 {
 		return 1
 	}
+	if a.probes["hook:auth-not-visible"] > 0 {
+		fmt.Fprintln(os.Stderr, "keysim: INCONCLUSIVE: the snapshot hook cannot see the authentication path (no field named auth): state-based oracles were skipped")
+		return 2
+	}
 	if missing := missingProbes(c.Prop, c.Tier, a); len(missing) > 0 && a.skipped == 0 {
 		fmt.Fprintf(os.Stderr, "keysim: INCONCLUSIVE: probes stuck at zero: %s\n", strings.Join(missing, ", "))
 		return 2
